@@ -11,7 +11,7 @@ import (
 
 func init() {
 	register("C03",
-		"Decides structural necessary conditions of 'pool blocks returned at most once; caller memory never': (R1) the pool primitives have a frozen caller set - mcache.Free only through free(), free() only from node.Release and the reader's Release, linkedPool.Put only from node.Release, mcache.Malloc only through malloc(); (R2) in node.Release the block is freed only when the node is reusable (not flagUnmanaged) and the reference count reached zero, and the node's buf/origin/next are cleared before it is pooled; (R3) wherever a node's buf is set from a []byte or string parameter (caller memory) the node was created with newLinkBufferNode(0) - which marks it unmanaged - and the unmanaged flag is removed only from a node that was just given a slice of a managed node's block; (R4) malloc and free use the same bound in the same direction, and only malloc'ed blocks (never dirtmake ones, never the private copies returned by ReadBinary/ReadString/Read) are put into caches/cachePeek; (R5) plain writes of the reference count happen only on fresh or writer-private nodes. Not decided: 'at most once' over all histories of Slice/Release/Append/Close (a counting argument over run-time reference counts).",
+		"Decides structural necessary conditions of 'pool blocks returned at most once; caller memory never': (R1) the pool primitives have a frozen caller set - mcache.Free only through free(), free() only from node.Release and the reader's Release, linkedPool.Put only from node.Release, mcache.Malloc only through malloc(); (R2) in node.Release the block is freed only when the node is reusable (not flagUnmanaged) and the reference count reached zero, and the node's buf/origin/next are cleared before it is pooled; (R3) wherever a node's buf is set from a []byte or string parameter (caller memory) the node was created with newLinkBufferNode(0) - which marks it unmanaged - and the unmanaged flag is removed only from a node that was just given a slice of a managed node's block; (R4) malloc and free use the same bound in the same direction, and only malloc'ed blocks (never dirtmake ones, never the private copies returned by ReadBinary/ReadString/Read) are put into caches/cachePeek; (R5) plain writes of the reference count happen only on fresh or writer-private nodes. Ownership of a block is taken over only from a donor that was seen to own it (reusable()); after free(x) the field or element x came from is set to nil before the function returns. Not decided: 'at most once' over all histories of Slice/Release/Append/Close (a counting argument over run-time reference counts).",
 		[]string{"mcache.Malloc/Free and sync.Pool behave as documented"},
 		func(r *Run) {
 			cfgs := []string{"linux"}
